@@ -119,13 +119,59 @@ Theorem C18_pool_got_are_returns : forall (new : bool) (progs : list (list pop))
 Proof. exact pool_got_are_returns. Qed.
 Print Assumptions C18_pool_got_are_returns.
 
-(* No step of Get or Put writes a shared plain field: the only plain accesses
-   are reads of the field New, which keeps its initial value for ever. *)
+(* Data-race freedom of Get and Put, in the model. The step function itself
+   ([pstep_thread_acc]; [pstep_thread], used everywhere above, is its first
+   component) reports the accesses a step makes to the shared state: plain
+   reads / writes of the field New and of the inner sync.Pool's own New field,
+   and calls into sync.Pool (synchronised inside the runtime: trusted).
+   The report is faithful: a step that reports no write of New leaves New
+   unchanged; a step that reports no call into sync.Pool leaves the bag
+   unchanged; no step changes another goroutine's locals; a step that reports
+   no access to New behaves the same for every value of New, and a step that
+   reports no call into sync.Pool behaves the same for every content of the bag. *)
+Theorem C18_pool_step_accesses : forall (c : pconfig) (t : tid) (ch : pchoice) (c' : pconfig) (accs : list paccess),
+  pstep_thread_acc c t ch = Some (c', accs) ->
+  pstep_thread c t ch = Some c' /\
+  (~ In (PlainWrite FNew) accs -> p_new c' = p_new c) /\
+  (~ In PoolInternal accs -> p_bag c' = p_bag c) /\
+  (forall t', t' <> t -> nth_error (p_threads c') t' = nth_error (p_threads c) t') /\
+  (~ In (PlainRead FNew) accs -> ~ In (PlainWrite FNew) accs ->
+     forall b, pstep_thread_acc (with_new b c) t ch = Some (with_new b c', accs)) /\
+  (~ In PoolInternal accs -> forall bag, pstep_thread_acc (with_bag bag c) t ch = Some (with_bag bag c', accs)).
+Proof. exact pool_step_accesses_faithful. Qed.
+Print Assumptions C18_pool_step_accesses.
+
+(* In every run, every access any goroutine makes ([pool_accesses]: the
+   reports of all steps of the run) is a plain READ of New, a plain READ of
+   the inner pool's New, or a call into sync.Pool: no step writes a shared
+   plain field (New keeps its initial value for ever), so no two accesses of
+   a run conflict (same plain field, one of them a write). What is NOT
+   proved here: that sync.Pool synchronises its own calls (trusted), and
+   that the Go code performs no access the transcription omits (race
+   detector run of the harness). *)
 Theorem C18_pool_no_plain_write : forall (new : bool) (progs : list (list pop)) (s : list sitem),
   p_new (prun (pinit new progs) s) = new /\
-  forall t a, pool_next_access (prun (pinit new progs) s) t = Some a -> a = PlainRead FNew.
-Proof. exact (fun new progs s => conj (pool_new_constant new progs s) (pool_plain_accesses_are_reads _)). Qed.
+  (forall t a, In (t, a) (pool_accesses (pinit new progs) s) ->
+     a = PlainRead FNew \/ a = PlainRead FPoolNew \/ a = PoolInternal) /\
+  (forall t1 a1 t2 a2, In (t1, a1) (pool_accesses (pinit new progs) s) ->
+     In (t2, a2) (pool_accesses (pinit new progs) s) -> ~ conflicting a1 a2).
+Proof. exact pool_no_plain_write. Qed.
 Print Assumptions C18_pool_no_plain_write.
+
+(* Non-vacuity of the two theorems above: the accesses of a run in which
+   goroutine 0 misses in the pool and calls New while goroutine 1 puts an item;
+   the read of New at "if p.New == nil" is reported and the step does depend
+   on the field (different next pc for New set / nil); a conflicting pair
+   exists as soon as a write is among the accesses. *)
+Example C18_pool_accesses_example :
+  pool_accesses (pinit true [[PGet]; [PPutFresh]])
+    [SThr 0 Miss; SThr 0 Miss; SThr 1 Miss; SThr 0 Miss; SThr 1 Miss; SThr 0 Miss; SThr 0 Miss]
+  = [(0, PlainRead FNew); (0, PoolInternal); (0, PlainRead FPoolNew); (1, PoolInternal); (0, PlainRead FNew)] /\
+  (let c := prun (pinit true [[PGet]]) [SThr 0 Miss] in
+   option_map (fun x => map p_pc (p_threads (fst x))) (pstep_thread_acc c 0 Miss) = Some [GPool] /\
+   option_map (fun x => map p_pc (p_threads (fst x))) (pstep_thread_acc (with_new false c) 0 Miss) = Some [GRet Zero SrcZeroNoNew]) /\
+  conflicting (PlainWrite FPoolNew) (PlainRead FPoolNew).
+Proof. vm_compute. repeat split. exists FPoolNew. left. split; [reflexivity|left; reflexivity]. Qed.
 
 (* Non-vacuity. AtomicValue: goroutine 1 calls CompareAndSwap(5,7) while
    goroutine 0 stores 5 twice; the second Store lands between the two steps of
